@@ -41,6 +41,15 @@ def ar_model(theta, N, seed):  # noqa: N803
     return x
 
 
+def ar_model_f32(theta, N, seed):  # noqa: N803
+    """the same model returning single-precision series (a simulator written against float32 arrays)"""
+    return ar_model(theta, N, seed).astype(np.float32)
+
+
+def model_for(cfg: dict):
+    return ar_model_f32 if cfg.get("f32") else ar_model
+
+
 def make_sampler(name: str, bs: int, ctor_seed):
     import importlib
 
@@ -64,6 +73,8 @@ def make_loss(name: str):
 
 def random_config(rng: random.Random, *, rl: bool = False, heavy: bool = True) -> dict:
     d = rng.randint(1, 4)
+    if rng.random() < 0.12:
+        d = rng.choice([11, 12, 14])        # more than ten parameters
     n_s = rng.randint(1, 4)
     names = [rng.choice(HISTORY_FREE)]
     pool = SAMPLERS if heavy else [s for s in SAMPLERS if s not in ("CORSSampler", "GaussianProcessSampler")]
@@ -82,6 +93,7 @@ def random_config(rng: random.Random, *, rl: bool = False, heavy: bool = True) -
            "loss": rng.choice(LOSSES), "seed": rng.randrange(1, 2**31), "kind": "rl" if rl else "rr",
            "eps": rng.choice([0.0, 0.3]) if rl else 0.0, "batches": rng.randint(len(lineup) + 1, 2 * len(lineup) + 2)}
     cfg["scribble"] = rng.random() < 0.25       # a model that overwrites its parameter argument after use
+    cfg["f32"] = rng.random() < 0.25            # the model returns float32 series
     cfg["stale"] = rng.random() < 0.3           # (C05) the saving folder already holds the checkpoint of some other calibration
     return cfg
 
@@ -103,7 +115,7 @@ def build(cfg: dict, *, njobs=1, verbose=False, folder=None, ctor_seeds=False):
                                       random_state=5 if ctor_seeds else None)
     else:
         kw["samplers"] = samplers
-    return Calibrator(loss_function=make_loss(cfg["loss"]), real_data=real, model=ar_model, parameters_bounds=cfg["bounds"],
+    return Calibrator(loss_function=make_loss(cfg["loss"]), real_data=real, model=model_for(cfg), parameters_bounds=cfg["bounds"],
                       parameters_precision=cfg["prec"], ensemble_size=cfg["E"], verbose=verbose, saving_folder=folder,
                       random_state=cfg["seed"], n_jobs=njobs, **kw)
 
@@ -191,7 +203,7 @@ def run_split(cfg: dict, cuts: list[tuple[int, str]]) -> list[dict]:
             for n, kind in cuts:
                 cal.calibrate(n)
                 if kind == "restore":
-                    cal = Calibrator.restore_from_checkpoint(folder, model=ar_model)
+                    cal = Calibrator.restore_from_checkpoint(folder, model=model_for(cfg))
         evs += observe(cal)
     except Hang:
         evs.append({"e": "crash", "what": "calibrate() did not return (watchdog)"})
@@ -256,7 +268,7 @@ def _segment_worker(args):
 
     try:
         with common.quiet():
-            cal = build(cfg, folder=folder) if first else Calibrator.restore_from_checkpoint(folder, model=ar_model)
+            cal = build(cfg, folder=folder) if first else Calibrator.restore_from_checkpoint(folder, model=model_for(cfg))
             cal.calibrate(n)
         ev = observe(cal)
     except Exception as e:  # noqa: BLE001
